@@ -80,7 +80,9 @@ theorem cap_timingLines : LogGood capMap.general.mode (tpLogBytes ZC ZC capBytes
   rw [fileLines_utf8_text _ cap_head, cap_lines, tpLog, C05.frame_eq_spec]
   decide
 
-theorem cap_noDoubleSlash : DecodedInv.NoDoubleSlash capMap := ⟨by decide +kernel, by decide +kernel⟩
+theorem cap_noDoubleSlash : DecodedInv.NoDoubleSlash capMap := by
+  have key : hasDS capMap.general.audioFile = false ∧ hasDS capMap.events.backgroundFile = false := by decide +kernel
+  exact ⟨key.1, key.2⟩
 
 /-- the object residual as a check (sliders: `F17Free` and a requested length, so F20 cannot occur). -/
 def objResidualF17B (h : HitObject ZC ZC) : Bool :=
@@ -122,33 +124,42 @@ def pathStableB (mode : GameMode) (h : HitObject ZC ZC) : Bool :=
   | _ => true
 
 theorem cap_pathStable : PathStable capMap := by
-  have key : capMap.hitObjects.all (pathStableB capMap.general.mode) = true := by decide +kernel
+  have key : capMap.hitObjects.all (pathStableB .taiko) = true := by decide +kernel
   intro h hh s hk
   have := List.all_eq_true.mp key h hh
   unfold pathStableB at this
   rw [hk] at this
   simp only [Bool.and_eq_true, decide_eq_true_eq] at this
-  refine ⟨this.1, fun d hd => ?_⟩
-  have h2 := this.2
-  rw [hd] at h2
-  exact of_decide_eq_true h2
+  rw [cap_mode]
+  constructor
+  · exact this.1
+  · intro d hd
+    have h2 := this.2
+    rw [hd] at h2
+    exact of_decide_eq_true h2
 
 instance (v : ZC) : Decidable (SvInverse v) := by unfold SvInverse; infer_instance
 
+instance {α : Type} (key : α → Int) (l : List α) : Decidable (C13.SortedBy key l) := by unfold C13.SortedBy; infer_instance
+
+open C13 in
+/-- one kernel evaluation of the decoded control points for all four clauses. -/
 theorem cap_timeline : TimelineHyps capMap.general.mode capMap.controlPoints := by
   rw [cap_mode]
-  exact {
-    sorted := ⟨by unfold C13.SortedBy; decide +kernel, by unfold C13.SortedBy; decide +kernel,
-      by unfold C13.SortedBy; decide +kernel, by unfold C13.SortedBy; decide +kernel⟩
-    sig := by decide +kernel
-    beat := by decide +kernel
-    sv := by
-      have key : ((1 : ZC) :: svSource .taiko capMap.controlPoints).all
+  have key : (SortedBy TimingPoint.key capMap.controlPoints.timingPoints ∧
+      SortedBy DifficultyPoint.key capMap.controlPoints.difficultyPoints ∧
+      SortedBy EffectPoint.key capMap.controlPoints.effectPoints ∧
+      SortedBy SamplePoint.key capMap.controlPoints.samplePoints) ∧
+      (∀ t ∈ capMap.controlPoints.timingPoints, 1 ≤ t.timeSignature.numerator) ∧
+      (∀ t ∈ capMap.controlPoints.timingPoints,
+        clamp t.beatLen (6 : ZC) (60000 : ZC) = t.beatLen ∧ lt t.beatLen (0 : ZC) = false) ∧
+      ((1 : ZC) :: svSource .taiko capMap.controlPoints).all
           (fun v => decide (SvInverse v) && decide (clamp v (0.01 : ZC) (10 : ZC) = v)) = true := by decide +kernel
-      intro v hv
-      have := List.all_eq_true.mp key v hv
-      simp only [Bool.and_eq_true, decide_eq_true_eq] at this
-      exact this }
+  obtain ⟨⟨s1, s2, s3, s4⟩, hsig, hbeat, hsv⟩ := key
+  refine ⟨⟨s1, s2, s3, s4⟩, hsig, hbeat, fun v hv => ?_⟩
+  have := List.all_eq_true.mp hsv v hv
+  simp only [Bool.and_eq_true, decide_eq_true_eq] at this
+  exact this
 
 /-- **the decoded toy file lies in the domain** — every field evaluated in the kernel. -/
 theorem cap_domain : DecodedDomain ZC.Rep capBytes capState capMap where
@@ -160,10 +171,18 @@ theorem cap_domain : DecodedDomain ZC.Rep capBytes capState capMap where
   pathStable := cap_pathStable
   timeline := cap_timeline
 
+/-- kernel evaluation of the SECOND half of the round trip on the toy file: the map encodes, the text has no BOM, and the
+state the text's lines lead to finishes (curve of the re-decoded slider included). -/
+theorem cap_redecode_check :
+    (match encode capMap with
+     | .ok t => decide (t.head? ≠ some (Char.ofNat 0xFEFF)) &&
+         (frame (beatmapDecoder : LineDecoder (BeatmapState ZC ZC)) ((textLines t).map trimEnd)).finish.toOption.isSome
+     | .error _ => false) = true := by decide +kernel
+
 theorem cap_encodes : ∃ t, encode capMap = .ok t := by
-  have hok : (encode capMap).toOption.isSome = true := by decide +kernel
+  have key := cap_redecode_check
   cases h : encode capMap with
-  | error e => rw [h] at hok; cases hok
+  | error e => rw [h] at key; cases key
   | ok t => exact ⟨t, rfl⟩
 
 /-- **non-vacuity of the capstone**: the toy file decodes, lies in the domain, encodes, and the theorem gives the round
@@ -174,6 +193,34 @@ theorem cap_roundtrip :
         ∀ m2 : Beatmap ZC ZC, st2.finish = .ok m2 → PreservedEq capMap m2 := by
   obtain ⟨t, ht⟩ := cap_encodes
   exact ⟨t, ht, roundtrip_decoded_capstone exactLaws_zc capBytes capState capMap cap_decodes cap_finishes cap_domain t ht⟩
+
+/-- … and the conclusion is not vacuous either: the re-decoded state DOES finish, so there is a re-decoded map `m2`, and it
+equals `capMap` on the preserved view. The whole chain bytes → `capMap` → text → `m2` on one concrete file. -/
+theorem cap_roundtrip_total :
+    ∃ (t : Str) (st2 : BeatmapState ZC ZC) (m2 : Beatmap ZC ZC), encode capMap = .ok t ∧
+      decodeBytes beatmapDecoder (utf8Encode t) = .ok st2 ∧ st2.finish = .ok m2 ∧ PreservedEq capMap m2 := by
+  obtain ⟨t, ht⟩ := cap_encodes
+  have key := cap_redecode_check
+  rw [ht] at key
+  simp only [Bool.and_eq_true, decide_eq_true_eq] at key
+  obtain ⟨hhead, hfin⟩ := key
+  obtain ⟨st2, hd, hall⟩ :=
+    roundtrip_decoded_capstone exactLaws_zc capBytes capState capMap cap_decodes cap_finishes cap_domain t ht
+  have e := decode_unique hd (RtFile.decodeBytes_utf8_text beatmapDecoder t hhead)
+  rw [← e] at hfin
+  cases hf : st2.finish with
+  | error err => rw [hf] at hfin; cases hfin
+  | ok m2 => exact ⟨t, st2, m2, ht, hd, hf, hall m2 hf⟩
+
+/-- what the preserved view says on the toy file, read off the theorem: the positive beatmap id, the break, the timing
+point and the slider come back. -/
+theorem cap_roundtrip_content (m2 : Beatmap ZC ZC) (h : PreservedEq capMap m2) :
+    m2.events.breaks.length = 1 ∧ m2.controlPoints.timingPoints.map (fun p => (p.time, p.beatLen)) = [(⟨0⟩, ⟨6⟩)] ∧
+    m2.hitObjects.length = 1 := by
+  refine ⟨by rw [h.events]; exact cap_content.2.2.1, by rw [h.timingPoints]; exact cap_content.2.2.2.1, ?_⟩
+  rw [h.count]
+  have := congrArg List.length cap_content.2.2.2.2.2
+  simpa using this
 
 /-- the hypotheses of `roundtrip_decoded_capstone` are satisfiable on a concrete non-trivial value. -/
 example (t : Str) (he : encode capMap = .ok t) :=
